@@ -245,6 +245,25 @@ def damaged_models(rng, quick):
     for mn, mm_ in (("good", good_m), ("bad", bad_m)):
         for dn, dd in (("good", good_d), ("bad", bad_d)):
             out.append(("tool:mesh-%s+dipoles-%s" % (mn, dn), base(), mm_, dd, dict(self=1, mesh=1 if mn == "good" else 0, inner=1 if dn == "good" else 0)))
+    # source meshes with several connected components, in both component orders: a component cleanly inside the brain, another
+    # one (a small octahedron) crossing the outer shell / the middle shell / lying cleanly in the brain as well
+    ov, ot = models.octasphere(0)
+    def octa(c_, r_): return models.transform(ov, r_, c_), list(ot)
+    def union(parts):
+        vs = []; ts = []
+        for pv, pt in parts:
+            off = len(vs); vs += list(pv); ts += [tuple(a + off for a in t) for t in pt]
+        return vs, ts
+    brainpart = sphere(0.3)
+    oc_out = tuple(c + d_ for c, d_ in zip(along(0.795), (0.013, -0.007, 0.004)))     # on a face of the outer shell
+    oc_mid = tuple(c + d_ for c, d_ in zip(along(0.636), (0.011, 0.006, -0.009)))     # on a face of the middle shell
+    comps = {"octahedron-crossing-outer-shell": (octa(oc_out, 0.08), 0), "octahedron-crossing-middle-shell": (octa(oc_mid, 0.07), 0),
+             "octahedron-inside-brain": (octa((0.05, 0.02, -0.03), 0.1), None)}
+    for cn, (part, bad) in comps.items():
+        for first in ("brain-component-first", "other-component-first"):
+            parts = [brainpart, part] if first.startswith("brain") else [part, brainpart]
+            if bad is None: parts = [octa((0.05, 0.02, -0.03), 0.1), octa((-0.15, 0.1, 0.12), 0.08)] if first.startswith("brain") else [octa((-0.15, 0.1, 0.12), 0.08), octa((0.05, 0.02, -0.03), 0.1)]
+            out.append(("multi-component-source:%s:%s" % (cn, first), base(), union(parts), None, dict(self=1, mesh=1 if bad is None else 0)))
     # non nested models: mesh/mesh intersections are not examined by selfCheck; dipoles are refused
     out.append(("siblings-clean", models.inclusions(1.0, [((0.45, 0, 0), 0.3, 1.0), ((-0.45, 0.1, 0), 0.3, 0.33)], 1.0, level=lvl), None, inner_dips(2, 0.2), dict(self=1, inner=0)))
     return out
